@@ -235,13 +235,21 @@ class ShardCtx:
 
                 target(out.info["target"])
 
+        nviol0 = len(col.violations)
         try:
             test()
         except _Found:
             pass
         except HarnessError:
             raise
-        except Exception as e:  # an exception escaping the oracle is a harness bug
+        except BaseException as e:  # an exception escaping the oracle is a harness bug
+            if len(col.violations) > nviol0:
+                # a recorded violation did not reproduce when Hypothesis replayed the example
+                # (non-determinism is what some properties are about): the record stands
+                col.notes.append("subcheck %s: Hypothesis reported %s after a recorded violation" % (sub, type(e).__name__))
+                return
+            if not isinstance(e, Exception):
+                raise
             if self._degraded():
                 # a runaway case (timeout / MemoryError under the rlimit) left this worker short of
                 # memory; what was explored so far stands, the rest of this shard is inconclusive
@@ -268,6 +276,7 @@ class ShardCtx:
             suppress_health_check=list(HealthCheck),
             phases=[Phase.generate],
         )
+        nviol0 = len(self.col.violations)
         try:
             run_state_machine_as_test(
                 seed(derive_seed(self.seed, self.prop, sub, self.shard))(machine_cls), settings=st_settings
@@ -276,7 +285,12 @@ class ShardCtx:
             pass
         except HarnessError:
             raise
-        except Exception as e:  # noqa: BLE001
+        except BaseException as e:  # noqa: BLE001
+            if len(self.col.violations) > nviol0:
+                self.col.notes.append("machine %s: Hypothesis reported %s after a recorded violation" % (sub, type(e).__name__))
+                return
+            if not isinstance(e, Exception):
+                raise
             if self._degraded():
                 self.col.notes.append("machine %s stopped early in shard %d after a runaway case: %s"
                                       % (sub, self.shard, type(e).__name__))
